@@ -167,6 +167,8 @@ func execPB(in In, em *Emitter) {
 			wire = append([]byte{}, op.Bs("bytes")...)
 			rpos = 0
 			ev["bytes"] = bytesJ(wire)
+		case "Rewind":
+			rpos = 0
 		case "Marshal":
 			kind, hasver, ver, payload := op.S("kind"), op.Bool("hasver"), op.Str("ver"), op.Bs("payload")
 			msg := mkMsg(kind, hasver, ver, payload)
@@ -276,6 +278,7 @@ func pbMarshalOp(g *Gen, kind string, bodyLen int) J {
 
 func genC06(g *Gen) {
 	r := g.R
+	genBigFrames(g, g.N(4, 24))
 	kinds := []string{"raw", "raw", "pb", "pb", "pbs"}
 	for c := 0; c < g.N(700, 25000); c++ {
 		nf := 1 + r.Intn(4)
@@ -306,6 +309,23 @@ func genC06(g *Gen) {
 		}
 		// reading past the last frame: clean EOF
 		ops = append(ops, J{"k": "Unmarshal", "avail": -1, "fault": "EOF", "chunks": pbChunks(g), "kind": "raw"})
+		g.Case("pb", J{"ops": ops})
+	}
+}
+
+// genBigFrames: a frame whose body exceeds 64 KiB (and 128 KiB) followed by small frames in the same stream,
+// read through a reader that hands out everything it is asked for and through chunked ones.
+func genBigFrames(g *Gen, n int) {
+	r := g.R
+	for c := 0; c < n; c++ {
+		bl := []int{65537, 66000 + r.Intn(3000), 131073 + r.Intn(500), 65536}[c%4]
+		kind := []string{"raw", "pb"}[c%2]
+		ops := []J{pbMarshalOp(g, kind, bl), pbMarshalOp(g, "raw", 1+r.Intn(40)), pbMarshalOp(g, "pb", r.Intn(3))}
+		chunks := [][]int64{{}, {4096}, {65536}, {70000}}[(c/2)%4]
+		ops = append(ops, J{"k": "Unmarshal", "avail": -1, "fault": "EOF", "chunks": chunks, "kind": kind},
+			J{"k": "Unmarshal", "avail": -1, "fault": "EOF", "chunks": pbChunks(g), "kind": "raw"},
+			J{"k": "Unmarshal", "avail": -1, "fault": "EOF", "chunks": pbChunks(g), "kind": "pb"},
+			J{"k": "Unmarshal", "avail": -1, "fault": "EOF", "chunks": []int64{}, "kind": "raw"})
 		g.Case("pb", J{"ops": ops})
 	}
 }
@@ -397,10 +417,37 @@ func genC07(g *Gen) {
 			g.Case("pb", J{"ops": ops})
 		}
 	}
+	// one large frame, read again and again (Rewind) with the stream cut at every block boundary j*2^k and
+	// 32 + j*2^k (+-1) for 2^k = 512 .. 65536: chunked body readers change their EOF handling exactly there
+	for c := 0; c < g.N(1, 6); c++ {
+		bl := []int{70001, 140001, 65536 + 32768, 32769, 200000, 66000}[c]
+		ops := []J{pbMarshalOp(g, "raw", bl)}
+		seen := map[int]bool{}
+		for k := uint(9); k <= 17; k++ {
+			for j := 1; j <= 3; j++ {
+				for _, base := range []int{0, 32} {
+					for d := -1; d <= 1; d++ {
+						cut := base + j<<k + d
+						if cut >= 32+bl || cut < 0 || seen[cut] {
+							continue
+						}
+						seen[cut] = true
+						fault := "EOF"
+						if (cut+int(k))%5 == 0 {
+							fault = "inj"
+						}
+						ops = append(ops, J{"k": "Unmarshal", "avail": cut, "fault": fault, "chunks": pbChunks(g), "kind": "raw"}, J{"k": "Rewind"})
+					}
+				}
+			}
+		}
+		g.Case("pb", J{"ops": ops})
+	}
 	// corrupt headers: header-size and body-size fields set to any uint64
 	hsVals := []uint64{0, 31, 33, 1 << 32, 1 << 63, ^uint64(0), 32 << 8, 32 | 1<<56}
 	bsVals := func(avail uint64) []uint64 {
-		return []uint64{avail - 1, avail, avail + 1, 1 << 24, 1 << 31, 1 << 40, 1 << 47, 1 << 62, 1<<63 - 1, 1 << 63, ^uint64(0), 1<<63 | 5}
+		return []uint64{avail - 1, avail, avail + 1, 1 << 24, 1 << 31, 1<<31 - 1, 1 << 32, 1<<32 - 1, 1 << 40, 1 << 47, 1 << 62, 1<<63 - 1, 1<<63 - 2,
+			1<<63 - 511, 1<<63 - 512, 1<<63 - 513, 1<<63 - 4096, 1<<63 - 65536, 1 << 63, ^uint64(0), 1<<63 | 5, ^uint64(0) - 511}
 	}
 	for c := 0; c < g.N(3, 30); c++ {
 		avail := uint64(1 + r.Intn(40))
